@@ -93,7 +93,7 @@ theorem omRemove_eq_filter (m : OMap β) (k : Nat) (h : omWf m) :
 
 theorem omGet_insert_self (m : OMap β) (k : Nat) (v : β) : omGet (omInsert m k v) k = some v := by
   induction m with
-  | nil => simp [omInsert, omGet, List.lookup]
+  | nil => simp [omInsert, omGet]
   | cons a m ih =>
     obtain ⟨ka, va⟩ := a
     simp only [omInsert]
